@@ -67,7 +67,7 @@ def linkFp (a : Arch) (os : Os) (mask : Nat) (mem : Mem) (sp fp : Nat) (e : Exp)
     -- every smaller probe position holding a zero "saved rbp"
     let k := (e.sp - 16 - fp) / 16
     decide (fp < U64MAX - 16) && decide (fp + 16 ≤ e.sp) && decide (e.sp = fp + 16 * k + 16) &&
-    (if os = .windows then decide (k ≤ Consts.win_probe_max) else decide (k = 0)) &&
+    (if os = .windows then decide (k ≤ 15) else decide (k = 0)) &&
     (List.range k).all (fun j => mem.read (fp + 16 * j) 8 == some 0 && (mem.read (fp + 16 * j + 8) 8).isSome) &&
     mem.read (e.sp - 8) 8 == some e.ret && mem.read (e.sp - 16) 8 == some nfp &&
     decide (e.sp ≤ nfp) && (mem.read nfp 8).isSome && !nonCanonAmd64 e.ret && (mem.read e.sp 8).isSome &&
@@ -104,9 +104,13 @@ def preFp (a : Arch) (os : Os) (mask : Nat) (mem : Mem) : Nat → Nat → List E
 def linkScan (env : Env) (a : Arch) (mem : Mem) (sp : Nat) (first : Bool) (e : Exp) : Bool :=
   let p := a.ptr
   -- MIPS32 skips the four argument words of every frame but the topmost
-  let start := if a = .mips32 ∧ !first then sp + Consts.mips_min_args * p else sp
-  let window := if a = .mips32 ∧ !first then scanWindow a .scan - Consts.mips_min_args
-                else scanWindow a (if first then .context else .scan)
+  let start := if a = .mips32 ∧ !first then sp + 4 * p else sp
+  -- the windows of the property text, as literals (NOT the translated constants: a change of the
+  -- code's windows must show up as a failing chain, not move the precondition along)
+  let window := match a with
+    | .mips32 => if first then 256 else 252
+    | .mips64 => 128
+    | _ => if first then 160 else 40
   let k := (e.sp - p - start) / p
   decide (start + p ≤ e.sp) && decide (e.sp = start + k * p + p) && decide (k < window) &&
   decide (e.sp ≤ a.regMax) && decide (4096 ≤ e.ret) &&
